@@ -90,9 +90,10 @@ Class(c) == IF AnyAmbiguous(c) THEN "ambiguous" ELSE IF IsIncr(c) /\ ~PositivePr
 Inconsistent(c, i) ==
   /\ c.variants[i].outcome = "ok"
   /\ \E j \in 1..(i - 1) : c.variants[j].outcome = "ok" /\ Observed(c, c.variants[j]) # Observed(c, c.variants[i])
-\* ... and a presentation must not be rejected when another one is evaluated
+\* ... and a presentation (or another run of the same one) must not be rejected - by the parser, by analysis or by
+\* stratification - when another one is evaluated
 Rejected(c, i) ==
-  /\ c.variants[i].outcome \in {"analysis_err", "parse_err"}
+  /\ c.variants[i].outcome \in {"analysis_err", "parse_err", "strat_err"}
   /\ \E j \in DOMAIN c.variants : c.variants[j].outcome = "ok"
 FullVerdict(c, i) ==
   LET v == Verdict(c, c.variants[i]) IN
